@@ -375,6 +375,17 @@ def discharge_safe(o, timeout_ms=10000, hard_factor=3.0):
     o.status = 'proved'
     o.backend = '+'.join(sorted(backends)) if backends else 'trivial'
     o.time = time.time() - t0
+    if o.kind == 'post' and o.goals:
+        # vacuity guard: a postcondition proved only because every return path is contradictory is not a proof
+        class _C:
+            pass
+        c = _C()
+        c.goals, c.expect_sat, c.kind = o.goals, 'any', 'cover'
+        c.status = c.detail = c.backend = None
+        c.time = 0.0
+        _discharge_cover(c, 2000)
+        if c.status == 'vacuous':
+            o.status, o.detail = 'vacuous', 'every path reaching this postcondition is contradictory (assumed contracts inconsistent)'
     return o
 
 
